@@ -1211,6 +1211,12 @@ func (r *runner) apiShapes(univ int) {
 		look(1)
 		return
 	}
+	// every boundary of the index types, each time (none of them is a member)
+	for _, i := range []int{math.MinInt32, math.MinInt32 + 1, math.MaxInt32, math.MaxInt32 - 63, -1, -63, -64, -65, 1024, 1087,
+		32767, -32768, 32768, -32769, 65535, 65536, -65536, 1 << 24, -(1 << 24)} {
+		r.do(&act{Op: "set", H: 1, I: i})
+	}
+	r.do(&act{Op: "len", H: 1})
 	counts := []int{255, 256, 257, 1023, 1024, 1025, 65535, 65536, 65537}
 	r.rng.Shuffle(len(counts), func(i, j int) { counts[i], counts[j] = counts[j], counts[i] })
 	for _, c := range counts[:4] {
